@@ -120,8 +120,6 @@ Definition addr_simple (a : bytes) : bool :=
      | _ => false
      end.
 
-Definition has_uni_space (s : bytes) : bool := existsb (fun u => contains u s) uni_spaces.
-
 Definition next_mail (evs : list event) : option (bytes * mail_opts * list event) :=
   (fix go (l : list event) :=
      match l with
@@ -164,19 +162,15 @@ Fixpoint c14_walk (calls : list call) (results : list (list res)) (evs : list ev
       let '(v2, k2) := if is_nil_res r then c14_walk cs rs evs' else ([], []) in (v ++ v2, k ++ k2)
   | KRcpt to o :: cs, [r] :: rs =>
       let given := match o with Some m => m | None => ro_zero end in
-      (* known finding F29: a UTF-8 ORCPT containing a non-ASCII Unicode space is sent raw (unitext
-         form) and the server's Unicode-aware TrimSpace/Fields cut the line there *)
-      let f29 := if bytes_eqb (ro_orcpt_type given) (bs "UTF-8") && has_uni_space (ro_orcpt given)
-                 then [bs "F29"] else [] in
       let '(v, k, evs') :=
         match r with
         | RLocalR _ => ([], [], evs)
-        | RSmtpR _ _ _ => if addr_simple to then ([bs "C14"], f29, evs) else ([bs "C14"], [bs "F25"], evs)
+        | RSmtpR _ _ _ => if addr_simple to then ([bs "C14"], [], evs) else ([bs "C14"], [bs "F25"], evs)
         | RNilR =>
             match next_rcpt evs with
             | Some (f, seen, evs') =>
                 let ok := bytes_eqb f to && ro_matches given seen in
-                (if ok then [] else [bs "C14"], if ok then [] else if addr_simple to then f29 else [bs "F25"], evs')
+                (if ok then [] else [bs "C14"], if ok || addr_simple to then [] else [bs "F25"], evs')
             | None => ([bs "C14"], [], evs)
             end
         end in
